@@ -322,4 +322,27 @@ theorem handler_error_reaches_caller (fl : Flusher) (hooks : Bool) (tid : UInt16
     rw [this, hx]
     simp
 
+/-- the same for a handler error that is not a typed Modbus error: the caller sees "server device failure" (04),
+addressed to the request -/
+theorem handler_failure_reaches_caller (fl : Flusher) (hooks : Bool) (tid : UInt16) (a : NewArgs) (r : Req)
+    (hwf : C01.WF a) (hnew : newReq a = .ok r) (hleg : Spec.legal a = true) (hkf : Driver.kfC09 a = none)
+    (h : Handler) (hh : h tid r = .genericErr) (hfc : r.fc.toNat < 128)
+    (hexp : 9 ≤ r.expLen .tcp) (sp : Bytes) :
+    handleFrame h (r.bytes .tcp tid) sp = some (excBytesTCP tid r.unit r.fc 4) ∧
+    ∀ script, Frag (excBytesTCP tid r.unit r.fc 4) script →
+      (doExchange .tcp fl hooks (r.bytes .tcp tid) (r.expLen .tcp) false script).1 =
+        .err (.exc (.excT tid r.unit r.fc 4)) := by
+  have hrt := (C09.C09_roundtrip_partial tid a r hwf hnew hleg hkf).2.1 sp
+  constructor
+  · show handleFrame h (r.bytesTCP tid) sp = _
+    unfold handleFrame
+    rw [hrt]
+    simp only [hh]
+  · intro script hs
+    have hx : excBytesTCP tid r.unit r.fc 4 = [hi8 tid, lo8 tid, 0, 0, hi8 3, lo8 3, r.unit, r.fc + 128, 4] := rfl
+    have := exception_reply_tcp fl hooks (r.bytes .tcp tid) (r.expLen .tcp) _ (by rw [hx]; rfl)
+      (by rw [hx]; simpa using u8_high_bit r.fc hfc) hexp script hs
+    rw [this, hx]
+    simp
+
 end Modbus.Properties.C07
